@@ -1,7 +1,7 @@
 (* C14/Enc.v -- encoders of model results into Base/Show.v `sx` for the correspondence check,
    and the concrete instantiation of the CSE model's parameters.  No proofs. *)
 From Coq Require Import ZArith List Bool PrimFloat SpecFloat FloatOps Arith.
-From XV Require Import Base.Show C14.Pre Gen.C14_Arith C14.ModelInt C14.ModelFloat C14.ModelCSE.
+From XV Require Import Base.Show C14.Pre Gen.C14_Arith C14.ModelInt C14.ModelFloat C14.ModelCSE C14.SelCmpf.
 Import ListNotations.
 Local Open Scope Z_scope.
 
@@ -38,6 +38,12 @@ Definition c14_select_case (ty : ity) (c l r : option Z) (same : bool) : sx :=
   L [enc_out (same_norm same (pat_select_const c)); enc_out (same_norm same (pat_select_true_false ty l r));
      enc_out (pat_select_same same)].
 Definition c14_cmpi_case (same : bool) (pred : Z) : sx := enc_out (pat_cmpi_equal_operands same pred).
+
+(* ---- SelectFoldCmpfPattern: 0 = left alone, 1 = arith.maximumf lhs, rhs, 2 = arith.minimumf lhs, rhs *)
+Definition c14_selcmpf_case (is_cmpf nnan nsz same_order : bool) (pred : Z) : sx :=
+  match pat_select_fold_cmpf is_cmpf nnan nsz same_order pred with
+  | SCNoChange => I 0 | SCMax => I 1 | SCMin => I 2
+  end.
 
 (* ---- float folder; operands and results as bit patterns *)
 Definition c14_f64_case (op : fop) (a b : Z) : sx :=
